@@ -690,7 +690,8 @@ func genCode(p *pkgInfo, repo, outFile string) {
 
 	var sb strings.Builder
 	w := func(format string, a ...interface{}) { fmt.Fprintf(&sb, format+"\n", a...) }
-	w("-- GENERATED by tools/extract -code from %s — do not edit; regenerated on every check", repo)
+	_ = repo
+	w("-- GENERATED by tools/extract -code from the repository source — do not edit; regenerated on every check")
 	w("-- Mechanical translation of the whitelisted Go functions (see NOTES.md for the subset).")
 	w("-- Go int/int64 ↦ Int (unbounded; overflow is out of scope), uint32 ↦ UInt32,")
 	w("-- uint64/uint ↦ UInt64 (wrap-around), error ↦ Err, struct ↦ structure, []T ↦ List T.")
